@@ -36,6 +36,12 @@ Close Scope R_scope.
 Open Scope Q_scope.
 Definition filter_band (l : list (Q * Q)) : Q := filter_norm (sumwf l) (sumw l).
 
+(* one (trace, band) from the raw ingredients (fitted d(log lambda), interpolated response, flux) per pixel, with the
+   GENERATED pixel-width post-processing and weight formula *)
+Definition band_pairs (l : list (Q * Q * Q)) : list (Q * Q) :=
+  map (fun t : Q * Q * Q => (filter_weight (filter_logdiff (fst (fst t))) (snd (fst t)), snd t)) l.
+Definition filter_thru_band (l : list (Q * Q * Q)) : Q := filter_band (band_pairs l).
+
 (* masked pixels are replaced through an interpolation that sees only the unmasked (index, value) pairs *)
 Definition good_pairs (fl : list (Z * Q * bool)) : list (Z * Q) :=
   map (fun t : Z * Q * bool => (fst (fst t), snd (fst t))) (filter (fun t : Z * Q * bool => negb (snd t)) fl).
@@ -46,7 +52,7 @@ Definition mask_interp (interp : list (Z * Q) -> Z -> Q) (fl : list (Z * Q * boo
 Inductive case :=
 | CAir (k x r : Q)        (* airtovac on x [unit of k Angstrom]; the implementation returned r [same unit] *)
 | CVac (k x r : Q)        (* vactoair *)
-| CFilter (l : list (Q * Q)) (r : Q) (tol : Q).   (* (weight, interpolated flux) of one trace and band; result r *)
+| CFilter (l : list (Q * Q * Q)) (r : Q) (tol : Q).   (* (fitted dloglam, response, interpolated flux) per pixel of one trace and band; result r *)
 
 Definition tol_wave : Q := 1 # 1000000000000.   (* 1e-12 relative *)
 
@@ -59,8 +65,8 @@ Definition run_case (c : case) : Z :=
       (if rel_close (in_unit k vactoair_Q x) r tol_wave then 0 else 1) +
       (if vactoair_ok (k * x) (k * r) then 0 else 2)
   | CFilter l r tol =>
-      (if Qle_bool (Qabs (filter_band l - r)) tol then 0 else 1) +
-      (if wmean_ok l r tol then 0 else 2)
+      (if Qle_bool (Qabs (filter_thru_band l - r)) tol then 0 else 1) +
+      (if wmean_ok (spec_pairs l) r tol then 0 else 2)
   end%Z.
 
 Definition run_cases (l : list case) : list Z := map run_case l.
